@@ -50,9 +50,16 @@ def one(job):
         # (a later segment that starts at an earlier segment's sequence number and covers it and its successor);
         # QUIC connections get reordered 1-RTT datagrams
         kw = {"resched": 1.0, "repack": 0.5, "quic_features": [{"reorder": True} for _ in range(nquic)]}
-    mx = e2e.Mixed(rng, [e2e.random_combo(rng) for _ in range(ntls)], n_quic=nquic, noise=False,
+    combos = [e2e.random_combo(rng) for _ in range(ntls)]
+    if mode == "reuse13" and combos:
+        # the connection whose 4-tuple is re-used is TLS 1.3 without the compatibility CCS: nothing but the second
+        # ClientHello tells the two connections apart
+        combos[0] = rng.choice([c for c in e2e.all_combos() if c[1] == "tls13"])
+        kw["shape_hook"] = lambda r, v: {"ccs13": False} if v == "tls13" else {}
+        mode = "reuse-continue"
+    mx = e2e.Mixed(rng, combos, n_quic=nquic, noise=False,
                    tls_app=[e2e.random_app(rng, 3, 6, big=0.0) for _ in range(ntls)], **kw)
-    if mode == "reuse" and mx.tls:
+    if mode in ("reuse", "reuse-continue") and mx.tls:
         # a second connection on the same 4-tuple after the first one (client port reuse): appended packet by packet
         import gen_tls
         first = mx.tls[0]["conn"]
@@ -60,6 +67,11 @@ def one(job):
         sc2 = gen_tls.Script(version, code, e2e.random_app(rng, 2, 4, big=0.0), rng, **dict(e2e.random_shape(rng, version), etm=etm))
         conn2 = gen_tls.TcpConn(cip=first.cip, sip=first.sip, cport=first.cport, sport=first.sport, cmac=first.cmac,
                                 smac=first.smac, cisn=rng.randrange(1, 2 ** 31), sisn=rng.randrange(1, 2 ** 31))
+        if mode == "reuse-continue":
+            # the second handshake continues the sequence space of the first (a new TLS session negotiated on the
+            # SAME TCP connection after the first one's close_notify-less end): its ClientHello reaches the parser
+            conn2.seq = dict(first.seq)
+            conn2.isn = dict(first.seq)
         for d, data in sc2.render()[0]:
             conn2.send(d, data, rng, e2e.random_cut(rng))
         t = mx.items[-1][1]
@@ -106,7 +118,7 @@ def one(job):
 def explore(ctx, scale=1):
     rng = ctx.rng
     n = ctx.n(18, 300) * scale
-    jobs = [(rng.getrandbits(48), *([(1, 0), (0, 1), (2, 0), (1, 1)][i % 4]), ["plain", "clock", "reuse", "retransmit", "clock", "retransmit"][i % 6])
+    jobs = [(rng.getrandbits(48), *([(1, 0), (0, 1), (2, 0), (1, 1)][i % 4]), ["plain", "clock", "reuse13" if (i // 6) % 2 == 0 else "reuse", "retransmit", "clock", "retransmit"][i % 6])
             for i in range(n)]
     results = tool.pmap(one, jobs, procs=16 if ctx.thorough() else 8)
     o = ctx.oracle.setdefault("every-cut", {"runs": 0, "violations": 0})
